@@ -54,7 +54,10 @@ class PipelineUnit(WeaverUnit):
                     n = 4
                 if s == "cubic" and m < 3:
                     m = 3
-                c = prog(gens.sorted_x(rng, m), gens.values(rng, m), s, n, rng.choice([None, None, True, False]), rng.choice(["trapezoid", "rectangle"]))
+                yk = "burst" if (s not in ("cubic", "linadapt", "expadapt") and m >= 4 and rng.random() < 0.15) else None
+                # (burst: one or two huge averages followed by small non-dyadic ones — every later interval is still matched to
+                #  its own average with local accuracy; the cubic spline is global and the adaptive splits need exact ratios)
+                c = prog(gens.sorted_x(rng, m), gens.values(rng, m, yk), s, n, rng.choice([None, None, True, False]), rng.choice(["trapezoid", "rectangle"]))
                 if c["script"][-2]["strategy"] in ("linadapt", "expadapt"):
                     chk = dict(c["script"][-2]); chk["x"], chk["y"] = c["x"], c["y"]
                     if c["script"][0]["op"] == "append":
